@@ -277,6 +277,11 @@ def _run_tuner(sim, scen, tuner, final, info, hooks, backend, store):
     final["rows"] = [canon(r) for r in store.results]
     final["tuner_path"] = str(tuner.tuner_path)
     final["alive_after"] = backend.alive_trials() if hasattr(backend, "alive_trials") else None
+    if scen["world"] == "sim":
+        try:
+            final["sim_clock"] = backend.time_keeper.time()
+        except AssertionError:
+            final["sim_clock"] = None
     # results table read back from disk, best configuration as reported by tuner and loaded experiment
     try:
         import pandas as pd
